@@ -80,10 +80,18 @@ func chanOf(ch any, capacity int) *chanState {
 			return chans[i].cs
 		}
 	}
+	if CapOverride != nil {
+		capacity = CapOverride(capacity)
+	}
 	cs := &chanState{cap: capacity, id: atomic.AddUint32(&nextLockID, 1)}
 	chans = append(chans, chanEnt{ch, cs})
 	return cs
 }
+
+// CapOverride, if set, maps the real capacity of a buffered channel to the capacity the scheduler models
+// (bounded abstraction of a size parameter: a deadlock that needs capacity+2 senders is searched with a
+// small capacity and then replayed with the real one).
+var CapOverride func(realCap int) int
 
 // ResetChannels forgets all channel queues (called between executions by the harness).
 //go:norace
@@ -130,7 +138,14 @@ type Exec struct {
 	ended    bool
 	// Hook is called (inside the running thread) at every point before choosing; may be nil.
 	Blocked []string
+	// Chooser, if set, picks the next thread once the prefix is used up (directed replay): it receives the
+	// enabled thread ids in canonical order and returns an index into them.
+	Chooser func(e *Exec, enabled []int, from *Thread) int
 }
+
+// PendingKind reports the operation thread t is about to perform (for Chooser functions).
+//go:norace
+func (t *Thread) PendingKind() Kind { return t.kind }
 
 var active *Exec
 var pendingSpawns []*Thread
@@ -341,6 +356,11 @@ func (e *Exec) dispatch(from *Thread) {
 				e.park(from)
 			}
 			return
+		}
+	} else if e.Chooser != nil {
+		idx = e.Chooser(e, en, from)
+		if idx < 0 || idx >= len(en) {
+			idx = 0
 		}
 	}
 	p := Point{Enabled: en, Chosen: idx, RunEn: runEn, Thread: -1}
